@@ -279,6 +279,24 @@ def run(chk):
         chk.evals(total)
         chk.part('replay_reversals_' + law, runs=total, of_sequences_with_6_or_more_samples=k)
         os.remove(res.dump_path)
+    # near ties at a large magnitude (linear law): loads whose ranges / extremes differ by one or two counts at 2^24, every sequence replayed
+    cfgname = 'MC_HCM_c05_near_%s.cfg' % tier
+    res = tlc.run(TLA, os.path.join(SPEC, 'hcm', cfgname), dump=True, timeout=3000, heap='12g')
+    chk.tlc(cfgname, res, 'HCM bookkeeping, strictly alternating load sequences over {-(2^24+1), -2^24, 0, 3, 2^24, 2^24+2}, law lin')
+    if res.violated:
+        chk.machinery.append('model invariant %s violated: %s' % (res.violated, res.trace[-1:]))
+    if res.dump_path and os.path.exists(res.dump_path):
+        total = 0
+        for n, nontriv, drift, viol, samples in par.pmap(_replay_blocks, [(p, 'lin', 1, chk.seed * 1000 + 700 + i) for i, p in enumerate(par.split_dump(res.dump_path, 32))], chunksize=1):
+            total += n
+            for kk in nontriv:
+                chk.nontrivial(kk)
+            for what, case, exp, got in viol:
+                chk.violation(what, case, exp, got, part='replay_near_ties')
+        chk.cov['traces_validated_against_impl'] += total
+        chk.evals(total)
+        chk.part('replay_near_ties', runs=total)
+        os.remove(res.dump_path)
     # extension beyond C05: chunk independence of FKMNonlinearDetector.process() (MC_HCMChunks), replayed; mismatches are drift
     cres = tlc.run(os.path.join(SPEC, 'hcm', 'MC_HCMChunks.tla'), os.path.join(SPEC, 'hcm', 'MC_HCMChunks.cfg'), dump=True, timeout=3000, heap='12g')
     chk.tlc('MC_HCMChunks.cfg', cres, 'extension: process() of the HCM detector is independent of the chunking (rows, running extremes, strain list, counters)')
@@ -391,7 +409,7 @@ def run(chk):
                        'columns (loads, S, eps, LF extremes, S_a, S_m, eps_a, eps_m, R, flags, run) and the strain lists are compared exactly; seeded sub-samples are also run '
                        'negated and as batches of 2-3 proportional points (batch point = point alone). Non-trivial = >= 2 recorded hystereses. '
                        'Recorded longer two-pass runs and raw process()/flush histories are validated by Trace_HCM.tla; runs with REAL laws (Binned ExtendedNeuber / SeegerBeste) are validated against the specification driven by the tabulated law.')
-    chk.cov['rule'] += ' Also: strictly alternating sequences over -3..3 (x2) with the cubic law (a fixed sample replayed); chunks are handed over in a re-used buffer that is overwritten after each call; two detectors run alternately in all 6 merge orders of their two passes (Interleave.tla) record what they record alone.'
+    chk.cov['rule'] += ' Also: strictly alternating sequences over -3..3 (x2) with the cubic law (a fixed sample replayed); chunks are handed over in a re-used buffer that is overwritten after each call; strictly alternating sequences over {-(2^24+1), -2^24, 0, 3, 2^24, 2^24+2} (near ties where x - 1e-12 = x) with the linear law, all replayed; two detectors run alternately in all 6 merge orders of their two passes (Interleave.tla) record what they record alone.'
     chk.cov['exhaustive'] = True
     chk.assumptions += ['the independent implementation is the TLA+ HCMNL specification, written from the procedure pyLife documents (cases a-c, Memory 1-3); the guideline text itself is not available offline',
                         'exact integer laws injected through the public constructor argument; real laws (ExtendedNeuber, SeegerBeste, Binned) are exercised by C10',
